@@ -53,19 +53,19 @@ ASSUMPTIONS = [
 ]
 FLOORS = {
     "quick": {
-        "programs": 72,
-        "repeat_checks": 450,
-        "history_runs": 200,
-        "fresh_closure_checks": 170,
-        "other_avals_checks": 60,
-        "transform_lane_checks": 1100,
-        "distinct_key_leaf_checks": 280,
-        "subkey_log_checks": 450,
-        "subkeys_logged": 2500,
-        "stack_checks": 1800,
-        "counter_checks": 600,
-        "fault_injections": 90,
-        "thunk_probes": 90,
+        "programs": 58,
+        "repeat_checks": 380,
+        "history_runs": 170,
+        "fresh_closure_checks": 140,
+        "other_avals_checks": 50,
+        "transform_lane_checks": 900,
+        "distinct_key_leaf_checks": 220,
+        "subkey_log_checks": 380,
+        "subkeys_logged": 2000,
+        "stack_checks": 1500,
+        "counter_checks": 500,
+        "fault_injections": 75,
+        "thunk_probes": 75,
     },
     "thorough": {
         "programs": 380,
@@ -103,7 +103,7 @@ NONFAULT = [
 # plan
 # ---------------------------------------------------------------------------
 def plan(tier, seed):
-    nprog = 76 if tier == "quick" else 380
+    nprog = 60 if tier == "quick" else 380
     nbinder = 4 if tier == "quick" else 20
     if os.environ.get("VERIF_C06_NPROG"):  # development aid: a smaller plan (floors will then be missed)
         nprog = int(os.environ["VERIF_C06_NPROG"])
@@ -252,7 +252,15 @@ def _eval(ctx, fn, key, a, kw, log=True):
     _LOG["keys"] = []
     _LOG["on"] = bool(log)
     try:
-        res = ctx.call(lambda: jax.block_until_ready(fn(key, *a, **kw)))
+        try:
+            res = ctx.call(lambda: jax.block_until_ready(fn(key, *a, **kw)))
+        except jax.errors.UnexpectedTracerError as e:
+            # raised by JAX itself (no genjax frame in the traceback) when a tracer that the code under
+            # test kept in hidden state is used again; the harness stores no values across calls
+            from lib.worker import Raised
+
+            res = Raised(e, "UnexpectedTracerError")
+            ctx.count("leaked_tracer_errors")
         if not hasattr(res, "brief"):
             jax.effects_barrier()
     finally:
@@ -823,10 +831,10 @@ def _run_program(case, ctx):
         return ev
 
     vf = jax.vmap(lambda k: sf_held(k, *a, **kw))
-    if cheap or thorough or case.get("index", 0) % 2 == 0:
+    if cheap or thorough or case.get("index", 0) % 3 == 0:
         ev_v = batched("vmap", vf)
     else:
-        ev_v = None  # op-by-op batched evaluation of a large program: every other one in the quick tier
+        ev_v = None  # op-by-op batched evaluation of a program with control flow: one in three in the quick tier
         ctx.count("eager_vmap_skipped_for_cost")
     ev_jv = batched("jit(vmap)", jax.jit(vf))
     ref = jevs
